@@ -11,10 +11,34 @@ from harness import election as E
 
 def client_runs(run, n, props):
     rng = run.rng
-    for _ in range(n):
-        dist = rng.random() < 0.35
+    for k_ in range(n):
+        dist = k_ >= 2 and rng.random() < 0.35
         e = E.gen_election(rng, size=rng.choice(["small", "medium"]), roles=["reporting"] * 6 + ["partial"] * 3 + ["zero-percent", "blocklisted"],
                            min_reporting=14, district=dist, many_districts=dist and rng.random() < 0.7, unexpected=not dist)
+        tiny = (not dist) and (k_ < 2 or rng.random() < 0.35)   # the first two runs of every pass have tiny counties
+        if tiny:
+            # county units, some of them tiny and almost fully counted: every county is its own group at county level, half a vote
+            # is then more than the width of the interval
+            for _try in range(12):
+                if e.unit_type == "county":
+                    break
+                e = E.gen_election(rng, size="small", roles=["reporting"] * 6 + ["partial"] * 3, min_reporting=14, unexpected=False)
+            if e.unit_type == "county":
+                e.threshold = 100
+                ids = list(e.pre["geographic_unit_fips"])
+                for u in rng.sample(ids, min(len(ids) // 3, 6)):
+                    i, j = e.pre.index[e.pre["geographic_unit_fips"] == u][0], e.cur.index[e.cur["geographic_unit_fips"] == u]
+                    if not len(j):
+                        continue
+                    bd, bg = rng.randint(2, 12), rng.randint(2, 12)
+                    e.pre.loc[i, ["baseline_dem", "baseline_gop", "baseline_turnout"]] = [bd, bg, bd + bg + 1]
+                    d, g = max(0, bd + rng.randint(-2, 3)), max(0, bg + rng.randint(-2, 3))
+                    e.cur.loc[j[0], ["results_dem", "results_gop", "results_turnout", "percent_expected_vote"]] = [d, g, d + g, rng.choice([97, 98, 99])]
+                    e.roles[u] = "partial"
+        # partial units anywhere between half and all of the expected vote (the provider's error bound is a setting)
+        for j in e.cur.index:
+            if e.roles.get(e.cur.loc[j, "geographic_unit_fips"]) == "partial" and rng.random() < 0.4 and e.threshold > 75:
+                e.cur.loc[j, "percent_expected_vote"] = rng.choice([52, 60, 70])
         if dist:
             # the contests of a district election are the (state, district) pairs, named <state>_<district>
             contests = sorted({f"{r['postal_code']}_{r['district']}" for r in e.pre.to_dict(orient="records")})
@@ -40,8 +64,12 @@ def client_runs(run, n, props):
         if dist:
             aggs = rng.choice([["district", "unit"], ["district", "county_fips", "unit"], ["postal_code", "district"]])
         B = rng.choice([4, 8, 16])
+        bound = rng.choice([{}, {}, {"percent_expected_vote_error_bound": 0.1}, {"percent_expected_vote_error_bound": 0.6},
+                            {"percent_expected_vote_error_bound": 0.75}])
+        if tiny and e.unit_type == "county" and "county_fips" not in aggs:
+            aggs = ["postal_code", "county_fips", "unit"]
         case = {"api_boot": True, "election": e.describe(), "lhs": lhs, "rhs": rhs, "stop": stop, "mode": mode, "alphas": alphas,
-                "aggregates": aggs, "B": B, "district_election": dist}
+                "aggregates": aggs, "B": B, "district_election": dist, "tiny_counties": tiny, "settings": bound}
         extra = {}
         # the client hands the lists on as they come: list, tuple or set
         wrap = rng.choice([list, list, tuple, set])
@@ -53,7 +81,8 @@ def client_runs(run, n, props):
         if stop:
             extra["stop_model_call"] = wrap(stop)
         res = E.run_client(e, estimands=["margin"], alphas=alphas, pi_method="bootstrap", aggregates=aggs,
-                           params=E.boot_params(B=B, lambda_=rng.choice([0.5, 2.0])), features=["baseline_normalized_margin"], extra=extra)
+                           params=E.boot_params(B=B, lambda_=rng.choice([0.5, 2.0]), **bound), features=["baseline_normalized_margin"],
+                           extra=extra)
         run.case(case, bool(lhs or rhs or stop))
         run.count("api bootstrap " + mode)
         if mode == "invalid":
@@ -69,7 +98,7 @@ def client_runs(run, n, props):
                                   signature=f"{p}:api-raise", election=e.to_json())
             continue
         t = res["tables"]
-        sd = t["district_data"] if dist else t["state_data"]
+        sd = t["district_data"] if (dist and "district_data" in t) else t["state_data"]
         for r in sd.to_dict(orient="records"):
             c = f"{r['postal_code']}_{r['district']}" if dist else r["postal_code"]
             called = "lhs" if c in lhs else "rhs" if c in rhs else "none"
@@ -104,13 +133,26 @@ def client_runs(run, n, props):
                     run.violation("predicted margin outside [-1, 1] or negative turnout", input=case, impl=r,
                                   predicate="margin_bounded", signature="C06:api-margin", election=e.to_json())
         if "C06" in props:
+            # in a district election the state table carries the district key as well: both are the contest level
+            top_names = ("district_data", "state_data") if dist else ("state_data",)
             for name, df in t.items():
                 for r in df.to_dict(orient="records"):
+                    if name not in top_names + ("unit_data",):
+                        # groups below the top level are never called or stop-listed
+                        bad = [a for a in alphas if not (r[f"lower_{a}_margin"] < r["pred_margin"] < r[f"upper_{a}_margin"])]
+                        if bad or not (-1 - 1e-9 <= r["pred_margin"] <= 1 + 1e-9) or r["pred_turnout"] < 0:
+                            run.violation("a group below the top level: not lower < prediction < upper, or margin outside [-1, 1], or "
+                                          "negative turnout", input=case, table=name, impl=r, predicate="agg_straddle / margin_bounded",
+                                          signature="C06:api-straddle", election=e.to_json())
+                            break
+                    if name == "unit_data" and (r.get("pred_turnout") is not None and r["pred_turnout"] < 0):
+                        run.violation("a unit's predicted turnout is negative", input=case, table=name, impl=r,
+                                      predicate="clip_product_bounded", signature="C06:api-margin", election=e.to_json())
+                        break
                     aa = sorted(alphas)
                     for a, b in zip(aa, aa[1:]):
-                        top = "district_data" if dist else "state_data"
                         ckey = f"{r['postal_code']}_{r.get('district')}" if dist else r["postal_code"]
-                        if name != top or (ckey not in list(lhs) + list(rhs) + list(stop)):
+                        if name not in top_names or (ckey not in list(lhs) + list(rhs) + list(stop)):
                             if r[f"lower_{b}_margin"] > r[f"lower_{a}_margin"] + 1e-9 or r[f"upper_{a}_margin"] > r[f"upper_{b}_margin"] + 1e-9:
                                 run.violation("intervals not nested by level", input=case, table=name, impl=r, predicate="agg_nested / unit_nested",
                                               signature="C06:api-nested", election=e.to_json())
